@@ -150,6 +150,10 @@ pub struct ServerStreamProg {
     /// after the final response: try send_informational / push_request again (must fail)
     pub late_informational: bool,
     pub late_push: bool,
+    /// pushed responses: 0 = right after each push_request (promise still queued), 1 = all
+    /// promises first, responses later in promise order, 2 = later, in reverse order
+    pub push_mode: u8,
+    pub push_defer: u32,
 }
 
 #[derive(Debug, Clone, Copy)]
@@ -167,6 +171,8 @@ pub struct WorkSpace {
     pub header_budget: usize,
     pub wait_reset: bool,
     pub any_code: bool,
+    /// pushed responses may be submitted after all promises, in either order
+    pub deferred_pushes: bool,
 }
 
 pub fn gen_code(t: &Tape, any: bool) -> u32 {
@@ -322,6 +328,8 @@ pub fn gen_server_prog(t: &Tape, ws: &WorkSpace, peer_iws: u32, peer_mfs: u32) -
         drop_without_response: ws.aborts && t.chance(Lane::Work, 1, 16),
         late_informational: ws.informational && t.chance(Lane::Work, 1, 4),
         late_push: ws.pushes && t.chance(Lane::Work, 1, 4),
+        push_mode: if ws.pushes && ws.deferred_pushes { *t.pick(Lane::Work, &[0u8, 1, 2, 2]) } else { 0 },
+        push_defer: if ws.pushes && ws.deferred_pushes { *t.pick(Lane::Work, &[0u32, 3, 20, 100]) } else { 0 },
     }
 }
 
@@ -951,6 +959,11 @@ async fn client_pushes(ctx: Ctx, name: String, mut pp: h2::client::PushPromises,
                                 d.r_head = Some(f);
                                 d.r_head_count += 1;
                             });
+                            // the pushed stream's response is in the application's hands
+                            c2.hist.with(|h| {
+                                let st = h.step;
+                                h.pushed_taken_step.insert(pid, st);
+                            });
                             read_body(c2.clone(), n2.clone(), 0, resp.into_body(), read, 1, pid, Cancel::default()).await;
                         }
                         Err(e) => {
@@ -974,6 +987,30 @@ async fn client_pushes(ctx: Ctx, name: String, mut pp: h2::client::PushPromises,
 
 // ------------------------------------------------------------------------------------
 // server stream
+
+fn send_pushed_response(ctx: &Ctx, mut pr: h2::server::SendPushedResponse<Bytes>, p: &PushProg) {
+    let pid = pr.stream_id().as_u32();
+    let mut r = http::Response::builder().status(p.resp_status).body(()).unwrap();
+    *r.headers_mut() = header_map(&p.resp_headers, 0);
+    let rrec = fields_of_response(&r);
+    match pr.send_response(r, p.eos_on_headers) {
+        Ok(ss) => {
+            ctx.hist.dir(pid, 1, |d| {
+                d.s_head = Some(rrec);
+                if p.eos_on_headers {
+                    d.s_end = true;
+                }
+            });
+            if !p.eos_on_headers {
+                let n = format!("s:s{}:send", pid);
+                ctx.spawner.spawn(n.clone(), send_body(ctx.clone(), n, 1, ss, p.body.clone(), 1, pid, Cancel::default()));
+            }
+        }
+        Err(e) => {
+            ctx.hist.error(1, pid, "pushed send_response", &e);
+        }
+    }
+}
 
 pub async fn server_stream(ctx: Ctx, name: String, req: http::Request<h2::RecvStream>, mut respond: h2::server::SendResponse<Bytes>, prog: ServerStreamProg) {
     let sid = respond.stream_id().as_u32();
@@ -1028,40 +1065,39 @@ pub async fn server_stream(ctx: Ctx, name: String, req: http::Request<h2::RecvSt
         }
         ctx.tick();
     }
+    let mut promised = Vec::new();
     for p in &prog.pushes {
         let preq = build_request("GET", &p.path, &p.head, 0);
         let rec = fields_of_request(&preq);
         match respond.push_request(preq) {
-            Ok(mut pr) => {
+            Ok(pr) => {
                 ctx.tick();
                 let pid = pr.stream_id().as_u32();
                 ctx.hist.dir(sid, 1, |d| d.s_push.push((pid, rec)));
                 ctx.hist.log(1, sid, || format!("push_request -> stream {}", pid));
-                let mut r = http::Response::builder().status(p.resp_status).body(()).unwrap();
-                *r.headers_mut() = header_map(&p.resp_headers, 0);
-                let rrec = fields_of_response(&r);
-                match pr.send_response(r, p.eos_on_headers) {
-                    Ok(ss) => {
-                        ctx.hist.dir(pid, 1, |d| {
-                            d.s_head = Some(rrec);
-                            if p.eos_on_headers {
-                                d.s_end = true;
-                            }
-                        });
-                        if !p.eos_on_headers {
-                            let n = format!("s:s{}:send", pid);
-                            ctx.spawner.spawn(n.clone(), send_body(ctx.clone(), n, 1, ss, p.body.clone(), 1, pid, Cancel::default()));
-                        }
-                    }
-                    Err(e) => {
-                        ctx.hist.error(1, pid, "pushed send_response", &e);
-                    }
-                }
+                promised.push((pr, p.clone()));
             }
             Err(e) => {
                 ctx.tick();
                 ctx.hist.log(1, sid, || format!("push_request -> Err({})", e));
             }
+        }
+        if prog.push_mode == 0 {
+            if let Some((pr, p)) = promised.pop() {
+                send_pushed_response(&ctx, pr, &p);
+            }
+        }
+    }
+    if !promised.is_empty() {
+        // the promises get a chance to reach the wire before their responses are submitted
+        for _ in 0..prog.push_defer {
+            yield_now().await;
+        }
+        if prog.push_mode == 2 {
+            promised.reverse();
+        }
+        for (pr, p) in promised {
+            send_pushed_response(&ctx, pr, &p);
         }
     }
     let mut r = http::Response::builder().status(prog.status).body(()).unwrap();
